@@ -152,6 +152,18 @@ Fixpoint enc_fields (fs : list (finfo * ty)) (l : list val) : list (list Z * jso
   | _, _ => []
   end.
 
+(* ---- map keys: decimal digits (strconv.ParseUint base 10), defined here so that the round
+   trip does not depend on the shared atoi model ---- *)
+Fixpoint key_all_digits (s : list Z) : bool :=
+  match s with [] => true | c :: r => (48 <=? c) && (c <=? 57) && key_all_digits r end.
+Fixpoint key_value (s : list Z) (acc : Z) : Z :=
+  match s with [] => acc | c :: r => key_value r (acc * 10 + (c - 48)) end.
+Definition parse_key (s : list Z) : option Z :=
+  match s with
+  | [] => None
+  | _ => if key_all_digits s then Some (key_value s 0) else None
+  end.
+
 (* ---- json.Unmarshal into a fresh zero value ---- *)
 Definition lower (c : Z) : Z := if (65 <=? c) && (c <=? 90) then c + 32 else c.
 Definition fold_name (s : list Z) : list Z := map lower s.
@@ -197,10 +209,13 @@ Fixpoint dec (t : ty) (j : json) {struct t} : option val :=
     | JNull => Some VNil
     | JObj ms =>
       match omapM (fun m : list Z * json =>
-                     let k := atoi (fst m) in
-                     if atoi_syntax_ok (fst m) && (lo <=? k) && (k <=? hi) then
-                       match dec t' (snd m) with Some x => Some (k, x) | None => None end
-                     else None) ms with
+                     match parse_key (fst m) with
+                     | Some k =>
+                       if (lo <=? k) && (k <=? hi) then
+                         match dec t' (snd m) with Some x => Some (k, x) | None => None end
+                       else None
+                     | None => None
+                     end) ms with
       | Some es => Some (VMap es)
       | None => None
       end
@@ -431,4 +446,67 @@ Fixpoint val_of_sexp (t : ty) (s : sexp) {struct t} : option val :=
       end
     | _ => None
     end
+  end.
+
+(* ---- structural equality of values (exact: nil <> empty, bit patterns) ---- *)
+Fixpoint val_eqb (a b : val) {struct a} : bool :=
+  match a, b with
+  | VInt x, VInt y => x =? y
+  | VBool x, VBool y => Bool.eqb x y
+  | VStr x, VStr y => bytes_eqb x y
+  | VFloat x, VFloat y => x =? y
+  | VOpaque, VOpaque => true
+  | VNil, VNil => true
+  | VPtr x, VPtr y => val_eqb x y
+  | VSlice la, VSlice lb =>
+    (fix go (la lb : list val) {struct la} : bool :=
+       match la, lb with
+       | [], [] => true
+       | x :: la', y :: lb' => val_eqb x y && go la' lb'
+       | _, _ => false
+       end) la lb
+  | VMap la, VMap lb =>
+    (fix go (la lb : list (Z * val)) {struct la} : bool :=
+       match la, lb with
+       | [], [] => true
+       | (k, x) :: la', (k', y) :: lb' => (k =? k') && val_eqb x y && go la' lb'
+       | _, _ => false
+       end) la lb
+  | VStruct la, VStruct lb =>
+    (fix go (la lb : list val) {struct la} : bool :=
+       match la, lb with
+       | [], [] => true
+       | x :: la', y :: lb' => val_eqb x y && go la' lb'
+       | _, _ => false
+       end) la lb
+  | _, _ => false
+  end.
+
+(* ---- an observed JSON document (Go's output re-read token by token by the harness) ----
+   null | (b 0/1) | (n <int or x> <float32 bits> <float64 bits>) | (s #bytes) | (a item ...)
+   | (o (#key item) ...), members in document order. *)
+Fixpoint json_matches (j : json) (o : sexp) {struct j} : bool :=
+  match j, o with
+  | JNull, S n => bytes_eqb n (str "null")
+  | JBool b, L [S n; I v] => bytes_eqb n (str "b") && Bool.eqb b (negb (v =? 0))
+  | JInt z, L [S n; I v; _; _] => bytes_eqb n (str "n") && (z =? v)
+  | JFloat bits, L [S n; _; I b32; I b64] => bytes_eqb n (str "n") && ((bits =? b32) || (bits =? b64))
+  | JStr s, L [S n; B s'] => bytes_eqb n (str "s") && bytes_eqb s s'
+  | JArr l, L (S n :: items) =>
+    bytes_eqb n (str "a") &&
+    (fix go (l : list json) (items : list sexp) {struct l} : bool :=
+       match l, items with
+       | [], [] => true
+       | x :: l', y :: items' => json_matches x y && go l' items'
+       | _, _ => false
+       end) l items
+  | JObj ms, L (S n :: items) =>
+    bytes_eqb n (str "o") &&
+    (fix go (ms : list (list Z * json)) (items : list sexp) {struct ms} : bool :=
+       match ms, items with
+       | [], [] => true
+       | (k, x) :: ms', L [B k'; y] :: items' => bytes_eqb k k' && json_matches x y && go ms' items'
+       | _, _ => false
+       end) ms items
+  | _, _ => false
   end.
